@@ -630,7 +630,7 @@ def r07_3(ctx):
     ctx.sample({"v4": spec_header(4, 0xAB, 0).hex(), "v5": spec_header(5, 0xAB, 0).hex(), "v9 getTokenCount": spec_header(9, 0xAB, 0x100).hex()})
 
 
-@rule("R07.7", ["C07"], "T-FUN", floor=4)
+@rule("R07.7", ["C07", "C08"], "T-FUN", floor=4)
 def r07_7(ctx):
     """Overriding decoders of wire structs are transparent for well-formed input: every struct class of bellows.types that
     overrides ``deserialize`` decodes a full-length encoding - whatever its leading bitmask / field values and whether or
@@ -672,7 +672,25 @@ def r07_7(ctx):
                         ctx.require(ok, f"transparent:{c.name}:{lead:#06x}:{'+trailing' if extra else 'exact'}",
                                     f"{c.name}.deserialize on a full-length encoding ({len(body)} bytes, leading field {lead:#06x}) hands "
                                     f"{bytes(sup[0].args[0]).hex() if sup and isinstance(sup[0].args[0], (bytes, bytearray)) else [e.args for e in sup]!r:.90} to the struct decoder instead of the "
-                                    "bytes received: a valid value does not survive the receive path", func=m, trace=p.trace(12))
+                                    "bytes received: a valid value does not survive the receive path", func=m, trace=p.trace(12), props=("C07",))
+            # truncated encodings: the override hands on what it was given (the struct decoder then rejects it); the one documented
+            # exception is the 24-byte short form of EmberKeyStruct (PSA key reference), which is completed to the full length
+            allowed_short = {("EmberKeyStruct", 24)}
+            for cutlen in range(0, full):
+                body = (0x0000).to_bytes(2, "little")[:cutlen] + bytes((17 * i + 3) & 0xFF for i in range(max(cutlen - 2, 0)))
+                if (c.name, cutlen) in allowed_short:
+                    continue
+                for p in px.explore(m, lambda: (c, {"data": body})):
+                    sup = [e for e in p.events if e.kind == "call" and e.what == "super().deserialize"]
+                    if p.terminal == "raise" or not sup:
+                        ctx.ok(1, f"short:{c.name}:{cutlen}")
+                        continue
+                    passed = sup[0].args[0] if sup[0].args else None
+                    ok = isinstance(passed, (bytes, bytearray)) and bytes(passed) == body
+                    ctx.require(ok, f"truncated-completed:{c.name}", f"{c.name}.deserialize on an encoding cut to {cutlen} of {full} bytes hands "
+                                f"{len(passed) if isinstance(passed, (bytes, bytearray)) else passed!r} bytes to the struct decoder: a truncated structure is completed "
+                                "instead of rejected, so a truncated frame decodes and reaches a pending command or the callbacks", func=m, trace=p.trace(10),
+                                props=("C07", "C08"))
     ctx.anchor(found >= 1, "a struct class with an overriding deserialize (EmberKeyStruct)")
 
 
